@@ -124,12 +124,29 @@ def ad_points(a, n0, n1):
     return [(i0 + d, a - i0 - d) for d in range(L)]
 
 
+def expected_header(fi, t):
+    """all 89 fields of trace ordinal t from what the harness put into the synthetic file"""
+    import numpy as _np
+    out = {}
+    sel = (lambda a: _np.asarray(a)[fi.mask][t]) if fi.mask is not None else (lambda a: _np.asarray(a)[t])
+    for code in spec.FIELDS:
+        if code in fi.arrays:
+            out[code] = int(_np.int32(sel(fi.arrays[code])))
+        elif code in fi.dups:
+            out[code] = int(_np.int32(sel(fi.arrays[fi.dups[code]])))
+        else:
+            out[code] = int(fi.consts.get(code, 0))
+    return out
+
+
 def expected(fi, op):
     """The property's verdict for `op` on file `fi`: ('ok', array) with the slice of the decoded volume, or
     ('err', class).  Empty and inverted ranges/windows are out of range (DESIGN.md C14)."""
     k = op[0]
     n0, n1, n2 = fi.n
     V = fi.volume
+    if k == 'hdr':
+        return ('ok', expected_header(fi, op[1])) if 0 <= op[1] < fi.tracecount else ('err', IDX)
     if fi.is2d:
         if k in ('il', 'xl', 'zs', 'ilno', 'xlno', 'zsc', 'sub', 'vol', 'cd', 'cdc', 'cdw', 'ad', 'adc', 'adw'):
             return ('err', DIM)
@@ -212,7 +229,7 @@ def expected(fi, op):
 def negative_ordinal_alternative(fi, op):
     """Where an ordinal is negative and within [-count, 0), Python indexing denotes a real item; the property accepts
     that item as well as a refusal.  Returns the alternative expected ('ok', array) or None."""
-    if op[0] in ('tr', 'trw') and isinstance(op[1], int) and -fi.tracecount <= op[1] < 0:
+    if op[0] in ('tr', 'trw', 'hdr') and isinstance(op[1], int) and -fi.tracecount <= op[1] < 0:
         alt = expected(fi, (op[0], fi.tracecount + op[1]) + tuple(op[2:]))
         return alt if alt[0] == 'ok' else None
     return None
@@ -220,6 +237,11 @@ def negative_ordinal_alternative(fi, op):
 
 def same(got, want):
     """bit-for-bit equality of a returned array with the expected slice (shape included)"""
+    if isinstance(want, dict):
+        try:
+            return {int(k): int(v) for k, v in got.items()} == want
+        except Exception:
+            return False
     got = np.asarray(got)
     want = np.asarray(want)
     if got.shape != want.shape:
